@@ -49,6 +49,12 @@ func Harness(prop string) func(ctx *common.Ctx) error {
 				}
 			}
 			lines = append(lines, run.CoqCase(10000+si))
+			if os.Getenv("VERIF_DEBUG") != "" {
+				b, _ := json.Marshal(map[string]interface{}{"id": 10000 + si, "hist": run.Hist, "obs": run.Obs, "views": run.Views})
+				f, _ := os.OpenFile(filepath.Join(ctx.Out, "debug.jsonl"), os.O_APPEND|os.O_CREATE|os.O_WRONLY, 0o644)
+				f.Write(append(b, '\n'))
+				f.Close()
+			}
 		}
 		for i := 0; i < n; i++ {
 			cfg.K = 2 + ctx.Rng.Pick(2)
